@@ -237,6 +237,14 @@ def build(name, argseed, dadi, env):
         if meth == "project":
             to = [int(rng.integers(1, n + 1)) for n in ns]
             return (lambda f, t: f.project(t)), [fs, to], {}, F
+        if meth in ("sample", "fixed_size_sample"):
+            # random by design: the generator state is set inside the call; the source has unmasked corners / interior masks only
+            src = dadi.Spectrum(np.round(rng.uniform(0, 9, fs.shape)), mask=(rng.random(fs.shape) < 0.1), mask_corners=bool(int(argseed) % 3 == 2))
+
+            def call(f, m=meth):
+                np.random.seed(4321)
+                return f.sample() if m == "sample" else f.fixed_size_sample(25)
+            return call, [src], {}, F
         if meth == "fold":
             return (lambda f: f.fold()), [fs], {}, F
         if meth == "unfold":
@@ -388,7 +396,11 @@ def build(name, argseed, dadi, env):
             kw["frozen%d" % nd] = True
             kw.pop("m12", None)
         if variant == "zeroT":
+            # a zero-length epoch (an optimiser driving a time to 0): by argument seed T = 0, T = initial_t = 0.3, T = 0
             T = 0.0
+            if int(argseed) % 3 == 1:
+                T = 0.3
+                kw["initial_t"] = 0.3
         f = getattr(Integration, fn.split("-")[0])
         return (lambda p, x, t, kw=kw: f(p, x, t, **kw)), [phi, xx, T], {}, dict(layout_args=[0, 1], integrator=True)
     if name.startswith("Inference."):
@@ -490,13 +502,14 @@ def build(name, argseed, dadi, env):
 
 CATALOG = (
     ["Spectrum." + m for m in ("project", "fold", "unfold", "marginalize", "filter_pops", "reorder_pops", "combine_pops", "scramble_pop_ids",
-                               "S", "pi", "Watterson_theta", "Tajima_D", "theta_L", "Fst", "log", "add", "mul", "pickle", "from_phi",
+                               "S", "pi", "Watterson_theta", "Tajima_D", "theta_L", "Fst", "log", "add", "mul", "pickle", "sample", "fixed_size_sample", "from_phi",
                                "from_phi-grids", "from_phi_direct", "from_phi_inbreeding", "from_data_dict", "from_data_dict-1pop", "project-6to4", "from_demes")]
     + ["Numerics." + m for m in ("default_grid", "trapz", "_cached_projection", "multinomln", "BetaBinomln", "cached_part", "BetaBinomConvolution",
                                  "apply_anc_state_misid", "reverse_array", "intersect_masks", "extrap-two_epoch", "extrap-split_mig")]
     + ["PhiManip." + m for m in ("phi_1D", "phi_1D_to_2D", "phi_2D_to_3D_admix", "phi_3D_to_4D", "remove_pop", "reorder_pops", "pulse_2D", "pulse_3D")]
     + ["Integration." + m for m in ("one_pop", "one_pop-func", "two_pops", "two_pops-func", "two_pops-frozen", "three_pops", "three_pops-func",
-                                    "four_pops", "four_pops-frozen", "four_pops-zeroT", "five_pops", "five_pops-zeroT")]
+                                    "four_pops", "four_pops-frozen", "four_pops-zeroT", "five_pops", "five_pops-zeroT",
+                                    "one_pop-zeroT", "two_pops-zeroT", "three_pops-zeroT")]
     + ["Inference." + m for m in ("ll", "ll_multinom", "ll_per_bin", "optimal_sfs_scaling", "optimally_scaled_sfs", "linear_Poisson_residual",
                                   "Anscombe_Poisson_residual", "project_up", "project_down")]
     + ["Godambe." + m for m in ("get_hess", "sum_chi2_ppf", "FIM_uncert", "GIM_uncert", "LRT_adjust", "score_stat")]
